@@ -293,10 +293,23 @@ func c12R3(e *Engine) {
 		e.fail("R3", "core:"+k+":text-order", lists[k], "the key list %s is ordered/searched as plain strings (%d site(s)): for number- or binary-typed sort keys the text order differs from the value order (9 sorts after 10, -1 before -2), so Query returns them out of order and range conditions on the key are answered from a wrongly ordered list", k, sites[k])
 	}
 	// the secondary-index comparator compares key text too
-	lk := e.fn("core", "index.lessKey")
-	if lk != nil {
-		n++
-		e.fail("R3", "core.index.lessKey:string-compare", e.pos(lk.Pos()), "index entries are ordered by comparing key strings")
+	// (whatever form the comparator takes: a closure over positions, a helper, a sort.Interface – see C02.R1)
+	for _, fn := range e.funcs("core") {
+		if fn.Parent() != nil {
+			continue
+		}
+		for _, a := range e.sortSites(fn) {
+			if !a.onList {
+				continue
+			}
+			le := &lessEval{e: e}
+			le.run(a.less, a.em(a.reversed), -1, -1, true, 0)
+			if le.ncmp > 0 {
+				n++
+				e.fail("R3", "core:index.sortedRefs:text-order", e.ipos(a.at), "index entries are ordered by comparing key strings (comparator %s)", e.fname(a.less))
+				break
+			}
+		}
 	}
 	if n < 3 {
 		e.fail("R3", "count:R3", "-", "only %d ordered key lists found", n)
